@@ -7,4 +7,5 @@ from excel2pycl.src.translators.abstract_translator import AbstractTranslator
 class PatternTokenTranslator(AbstractTranslator):
     @classmethod
     def translate(cls, token: PatternToken, excel: Excel, context: Context) -> str:
-        return f'self._regexp({token.value[0]})'
+        # the token text is the pattern between double quotes: emit it as a Python string literal of its own
+        return f'self._regexp({repr(token.value[0][1:-1])})'
